@@ -135,6 +135,9 @@ fn main() {
         usage();
     }
     let opts = harness::Opts::from_env();
+    if matches!(args[1].as_str(), "c04" | "c09" | "c13" | "c14" | "c15" | "c16" | "replay" | "selfcheck") {
+        world::sweep_stale();
+    }
     let code = match args[1].as_str() {
         "c13" => {
             println!("VERIF_SEED={}", opts.seed);
